@@ -126,6 +126,7 @@ func mkExec(s scen) *mc.Exec {
 		closeDone   bool
 		liveAtClose []string
 		cancelled   bool
+		capErr      string
 	)
 	body := func() {
 		var err error
@@ -134,6 +135,15 @@ func mkExec(s scen) *mc.Exec {
 			mc.Fail("NewCoalescing: %v", err)
 		}
 		ch := mc.NewChan[struct{}]()
+		if s.timeline && s.c.cap > 0 && s.end.kind == 0 {
+			// "as soon as the pending-events cap is reached": once everything
+			// that can run has run, fewer than cap events may be pending
+			mc.OnQuiescence(func() {
+				if p, _ := ratelimiting.McPending(rl); p >= s.c.cap && capErr == "" {
+					capErr = fmt.Sprintf("[key=cap-reached-but-not-signalled] %d events pending at a quiescent instant (t=%v) although MaxPendingEvents is %d", p, mc.ModelNow(), s.c.cap)
+				}
+			})
+		}
 		ctx, cancel := mc.CtxWithCancel(context.Background())
 		mc.GoNamed("run", func() {
 			runErr = rl.Run(ctx, ch)
@@ -179,7 +189,19 @@ func mkExec(s scen) *mc.Exec {
 					cancelled = true
 					cancel()
 				}
-				if s.end.kind == 'C' || s.end.kind == 'B' {
+				if s.end.kind == 'D' {
+					// two overlapping Close calls: each must return only after the helpers finished
+					mc.GoNamed("ender2", func() {
+						born := mc.NumThreads()
+						rl.Close()
+						for _, n := range mc.UnfinishedBelow(born) {
+							if strings.HasPrefix(n, "g") {
+								liveAtClose = append(liveAtClose, n+"(second Close)")
+							}
+						}
+					})
+				}
+				if s.end.kind == 'C' || s.end.kind == 'B' || s.end.kind == 'D' {
 					// helpers started by operations that began before Close was
 					// called; later ones belong to calls racing with Close
 					born := mc.NumThreads()
@@ -197,7 +219,7 @@ func mkExec(s scen) *mc.Exec {
 	}
 	check := func(e *mc.End) error {
 		for _, t := range e.Threads {
-			if (strings.HasPrefix(t.Name, "adder") || t.Name == "ender" || t.Name == "main") && !t.Finished {
+			if (strings.HasPrefix(t.Name, "adder") || strings.HasPrefix(t.Name, "ender") || t.Name == "main") && !t.Finished {
 				return fmt.Errorf("deadlock: %s blocked on %s; parked=%v", t.Name, t.WaitOn, e.Parked())
 			}
 		}
@@ -208,11 +230,14 @@ func mkExec(s scen) *mc.Exec {
 		if runErr != nil {
 			return fmt.Errorf("Run returned %v", runErr)
 		}
-		if (s.end.kind == 'C' || s.end.kind == 'B') && len(liveAtClose) > 0 {
+		if (s.end.kind == 'C' || s.end.kind == 'B' || s.end.kind == 'D') && len(liveAtClose) > 0 {
 			return fmt.Errorf("Close returned while helper goroutines were still alive: %v", liveAtClose)
 		}
 		_ = closeDone
 		_ = cancelled
+		if capErr != "" {
+			return fmt.Errorf("%s", capErr)
+		}
 		if len(sigs) > len(adds) {
 			return fmt.Errorf("%d signals for %d Adds", len(sigs), len(adds))
 		}
@@ -353,12 +378,27 @@ func scenarios() []hx.Scenario {
 			add(scen{c: c, adders: [][]int{g}, consumer: 'p', timeline: true}, 1, mc.TimerGo123, len(g) > 5)
 		}
 	}
+	// (a'') one very long busy period: the window must keep doubling up to the
+	// maximum and stay there (70 Adds one unit apart give a single late signal)
+	for _, n := range []int{40, 70} {
+		g := make([]int, n)
+		for i := 1; i < n; i++ {
+			g[i] = 1
+		}
+		sc := scen{c: cfg{2, 8, 0}, adders: [][]int{g}, consumer: 'p', timeline: true}
+		scCopy := sc
+		out = append(out, hx.Scenario{
+			Name: fmt.Sprintf("tl i2m8c0 long burst of %d Adds one unit apart", n), Class: "coalescing",
+			Opts: mc.Options{Delay: true, MinBound: 1, Bound: 1, AutoClock: true, ClockLast: true, Horizon: 400 * unit, MaxSteps: 40000},
+			Mk:   func() *mc.Exec { return mkExec(scCopy) },
+		})
+	}
 	// (b) race mode: adders x ender x consumer
 	raceCfgs := []cfg{{2, 4, 0}, {2, 4, 1}, {2, 4, 2}}
 	addScripts := [][][]int{
 		{{0}}, {{0, 0}}, {{0, 1}}, {{0, 2}}, {{0, 3}}, {{0}, {0}}, {{0}, {1}}, {{0}, {2}}, {{0, 0}, {0}}, {{0, 1}, {1}}, {{0, 2}, {0, 1}},
 	}
-	enders := []ender{{0, 0}, {'C', 0}, {'C', 1}, {'C', 2}, {'X', 0}, {'X', 2}, {'B', 0}, {'B', 2}}
+	enders := []ender{{0, 0}, {'C', 0}, {'C', 1}, {'C', 2}, {'X', 0}, {'X', 2}, {'B', 0}, {'B', 2}, {'D', 0}, {'D', 1}}
 	for _, c := range raceCfgs {
 		for ai, as := range addScripts {
 			for _, en := range enders {
